@@ -98,6 +98,50 @@ def faults(rnd, n):
 
 
 # faults that need their own top-level declarations (functions, modules); (class, full faulty tail, full twin tail, extra files)
+# systematic operand-type faults: every operator x every operand slot x every value kind outside the slot's domain
+_NUM, _INT, _CONT, _BOOL = {"Z", "K", "Y"}, {"Z", "Y"}, {"T", "ZL", "TL"}, {"W"}
+OPERAND_VALUES = {"Z": "7", "K": "2,5", "Y": "(7 als Byte)", "W": "wahr", "C": "'c'", "T": '"txt"', "ZL": "(eine Liste, die aus 1, 2 besteht)",
+                  "TL": '(eine Liste, die aus "a" besteht)', "TD": "hn_c04", "S": "pk_c04"}
+OPERAND_KIND_NAMES = {"Z": "Zahl", "K": "Kommazahl", "Y": "Byte", "W": "Wahrheitswert", "C": "Buchstabe", "T": "Text", "ZL": "Zahlen Liste", "TL": "Text Liste",
+                      "TD": "type definition of Zahl", "S": "Kombination"}
+# declarations the TD / S values need; appended to every base program (which must still be accepted)
+OPERAND_PRELUDE = ('Wir definieren eine Hausnummer_c04 als eine Zahl.\nDie Hausnummer_c04 hn_c04 ist 5 als Hausnummer_c04.\nWir nennen die Kombination aus\n'
+                   '\tder Zahl x mit Standardwert 0,\neinen Punkt_c04, und erstellen sie so:\n\t"Standard_Punkt_c04"\nDer Punkt_c04 pk_c04 ist Standard_Punkt_c04.\n')
+OPERATORS = [
+    ("plus", "{0} plus {1}", ["1", "2"], [_NUM, _NUM]), ("minus", "{0} minus {1}", ["1", "2"], [_NUM, _NUM]), ("mal", "{0} mal {1}", ["1", "2"], [_NUM, _NUM]),
+    ("durch", "{0} durch {1}", ["1", "2"], [_NUM, _NUM]), ("hoch", "{0} hoch {1}", ["2", "3"], [_NUM, _NUM]), ("modulo", "{0} modulo {1}", ["5", "2"], [_INT, _INT]),
+    ("logisch und", "{0} logisch und {1}", ["5", "2"], [_INT, _INT]), ("logisch oder", "{0} logisch oder {1}", ["5", "2"], [_INT, _INT]),
+    ("logisch kontra", "{0} logisch kontra {1}", ["5", "2"], [_INT, _INT]), ("nach links verschoben", "{0} um {1} Bit nach links verschoben", ["5", "2"], [_INT, _INT]),
+    ("nach rechts verschoben", "{0} um {1} Bit nach rechts verschoben", ["5", "2"], [_INT, _INT]), ("kleiner als", "{0} kleiner als {1} ist", ["1", "2"], [_NUM, _NUM]),
+    ("größer als", "{0} größer als {1} ist", ["1", "2"], [_NUM, _NUM]), ("kleiner als, oder", "{0} kleiner als, oder {1} ist", ["1", "2"], [_NUM, _NUM]),
+    ("größer als, oder", "{0} größer als, oder {1} ist", ["1", "2"], [_NUM, _NUM]), ("zwischen", "{0} zwischen {1} und {2} ist", ["2", "1", "3"], [_NUM, _NUM, _NUM]),
+    ("und", "{0} und {1}", ["wahr", "falsch"], [_BOOL, _BOOL]), ("oder", "{0} oder {1}", ["wahr", "falsch"], [_BOOL, _BOOL]), ("nicht", "nicht {0}", ["wahr"], [_BOOL]),
+    ("Betrag", "der Betrag von {0}", ["3"], [_NUM]), ("logisch nicht", "logisch nicht {0}", ["3"], [_INT]), ("Länge", "die Länge von {0}", ['"abc"'], [_CONT]),
+    ("an der Stelle", "{0} an der Stelle {1}", ['"abc"', "1"], [_CONT, {"Z"}]), ("im Bereich", "{0} im Bereich von {1} bis {2}", ['"abc"', "1", "2"], [_CONT, {"Z"}, {"Z"}]),
+    ("ab dem", "{0} ab dem {1}. Element", ['"abc"', "2"], [_CONT, {"Z"}]), ("bis zum", "{0} bis zum {1}. Element", ['"abc"', "2"], [_CONT, {"Z"}]),
+    ("falls", "{0}, falls {1}, ansonsten {2}", ["1", "wahr", "2"], [None, _BOOL, None]),
+]
+
+
+def operand_faults():
+    """(class, faulty line, twin line); all 382 were rejected by the unchanged tree when the catalogue was built"""
+    out = []
+    for name, tpl, ok, allowed in OPERATORS:
+        for slot, al in enumerate(allowed):
+            if al is None:
+                continue
+            for kind, v in OPERAND_VALUES.items():
+                if kind in al:
+                    continue
+                if al == {"Z"} and kind in ("K", "Y"):
+                    continue        # whether an index may be a Byte / Kommazahl is not a question of this catalogue
+                ops = list(ok)
+                ops[slot] = v
+                out.append(("operand %d of '%s' is a %s" % (slot + 1, name, OPERAND_KIND_NAMES[kind]), "Die Variable o%N% ist (" + tpl.format(*ops) + ").",
+                            "Die Variable o%N% ist (" + tpl.format(*ok) + ")."))
+    return out
+
+
 def toplevel_faults():
     out = []
     fn = lambda name, ret, body: "Die Funktion %s gibt %s zurück, macht:\n%s\nUnd kann so benutzt werden:\n\t\"%s\"\n" % (name, ret, body, name)
@@ -188,12 +232,13 @@ def run(tier):
     nbases = 12 if tier == "quick" else 150
     per_base = 130 if tier == "quick" else 270
     chk.rule = ("base programs: seeded well-typed statement programs of ddpmodel that the real front end accepts (verified); exactly one fault from a catalogue of "
-                "static faults (undeclared/out-of-scope names per expression position, redeclarations, operand types per operator, non-assignable initialiser/assigned/"
+                "static faults (undeclared/out-of-scope names per expression position, redeclarations, operand types - systematically: 27 operators x every operand slot x every value kind outside the slot's domain incl. a type definition and a Kombination -, non-assignable initialiser/assigned/"
                 "argument/condition/loop bound/step/repeat count/returned values, Konstante mutation, loop control outside loops, missing final return, return at top "
                 "level, non-public names/types/fields of imports incl. selective imports, wrong articles) placed at the sites {top level, if block, loop body, function "
                 "body, 3-deep nesting}. Each fault has a well-formed twin that must be accepted. Distinct by (base, fault, site); non-trivial when the twin is accepted.")
     chk.assumptions = ["a fault whose twin is not accepted at that site is discarded as a harness limitation (counted)", "wrong articles are only generated for non-generic types"]
     stm = faults(rnd, 0)
+    opf = operand_faults()
     top = toplevel_faults()
     with Scratch("c04") as sc:
         # base programs
@@ -202,7 +247,7 @@ def run(tier):
             r = random.Random("%d/%s/base%d" % (chk.seed, PID, b))
             g = StmtGen(r)
             g.build(n_items=r.randint(6, 14), d=2, nest=2, n_funcs=r.randint(0, 2))
-            bases.append(Printer(g.prog).program())
+            bases.append(Printer(g.prog).program() + OPERAND_PRELUDE)
         jobs = []
         uniq = 0
         for bi, base in enumerate(bases):
@@ -214,6 +259,12 @@ def run(tier):
                 if cls in ("break outside loop", "continue outside loop") and site in ("loop", "nested"):
                     site = "function"      # inside a loop these are legal; a function body is still 'outside of a loop'
                 cases.append((cls, site, place(bad, site), place(good, site), {}))
+            # the systematic operand faults: quick = every fault once over the bases (round robin), thorough = a third of them per base
+            for k in range(len(opf)):
+                if (k % nbases == bi % nbases) if tier == "quick" else (rnd.random() < 0.34):
+                    cls, bad, good = opf[k]
+                    site = rnd.choice(SITES)
+                    cases.append((cls, site, place(bad, site), place(good, site), {}))
             for k in rnd.sample(range(len(top)), min(len(top), per_base // 3)):
                 cls, bad, good, files = top[k]
                 cases.append((cls, "top", bad, good, files))
